@@ -35,6 +35,8 @@ def gen_case(seed, i):
     w = World()
     times = {}
     tvals = [T0_NS - k * 3600 * 10**9 - 500 * 10**6 for k in range(1, 5)]   # few values -> ties
+    # ... and values that differ by less than a millisecond (times have nanosecond precision; they are NOT ties)
+    tvals += [T0_NS - 3600 * 10**9 - 500 * 10**6 + d for d in (100, 300_100, 600_100)]
     # one case in twelve has a WIDE group (40..56 replicas, heavily tied timestamps and nesting levels): the
     # quantifier says "sizes 2..N", and sorting / batching code behaves differently above a few dozen elements
     wide = rng.random() < 0.085
